@@ -8,8 +8,9 @@ From ZV Require Import Base.Bytes Base.Res C14.Model C14.Spec.
 Open Scope N_scope.
 
 (* ---- rendering ---- *)
-Definition fnv_step (h : N) (b : byte) : N := N.land (N.lxor h (bn b) * 1099511628211) 18446744073709551615.
-Definition fnv64 (l : bytes) : N := fold_left fnv_step l 14695981039346656037.
+(* message identity token: length + a 64-bit multiplicative hash (h := (33 h) xor b, from 5381) — cheap on binary N *)
+Definition fnv_step (h : N) (b : byte) : N := N.land (N.lxor (N.shiftl h 5 + h) (bn b)) 18446744073709551615.
+Definition fnv64 (l : bytes) : N := fold_left fnv_step l 5381.
 
 Fixpoint hex_digits (n : nat) (v : N) (acc : bytes) : bytes :=
   match n with
@@ -33,13 +34,16 @@ Definition out_tok (o : out) : bytes :=
   | OMsg m => B "OK:" ++ dec_of_N (m_seq m) ++ colon ++ dec_of_N (lenN (m_bytes m)) ++ colon
               ++ hex16 (fnv64 (m_bytes m)) ++ colon ++ fds_tok (m_fds m)
   | OErr e => err_tok e
-  | OPanic _ => B "PANIC"
+  | OPanic _ => B "HANG"
   end.
 
 Definition has_panic (l : list out) : bool := existsb (fun o => match o with OPanic _ => true | _ => false end) l.
 
-Definition render_obs (outs : list out) (ncalls : N) (pos : N) : bytes :=
-  if has_panic outs then B "PANIC"
+(* mode d: a panic inside receive_message unwinds into the harness, which prints PANIC.
+   mode c: the panic kills the socket-reader task (the executor keeps the payload for a JoinHandle nobody awaits),
+   the message stream never ends: the harness reports what it got, then HANG. *)
+Definition render_obs (conn_mode : bool) (outs : list out) (ncalls : N) (pos : N) : bytes :=
+  if has_panic outs && negb conn_mode then B "PANIC"
   else join (B ",") (map out_tok outs) ++ B ";calls=" ++ dec_of_N ncalls ++ B ";pos=" ++ dec_of_N pos.
 
 Definition render_spec (outs : list out) (pos : N) : bytes :=
@@ -143,7 +147,7 @@ Definition run_case (line : bytes) : outp :=
           let c := N.to_nat cutN in
           if (length w <? c)%nat then bad_case else
           let (outs, st) := run_reader std_fields (oracle_of sc) w c in
-          {| o_model := render_obs outs (N.of_nat (calls st)) (lenN w - lenN (strm st));
+          {| o_model := render_obs (lbeq mode (B "c")) outs (N.of_nat (calls st)) (lenN w - lenN (strm st));
              o_spec := spec_field ms c sc;
              o_class := class_field ms c |}
       | _, _, _ => bad_case
